@@ -85,6 +85,20 @@ class Stop:
         self.value = value
 
 
+def definitely_different(a, b):
+    """two abstract values that cannot be equal under derived structural equality: different variants of one enum, different constants,
+    or the same variant / tuple shape with some pair of components that cannot be equal"""
+    if a[0] == 'c' and b[0] == 'c':
+        return a[1] != b[1]
+    if a[0] == 'adt' and b[0] == 'adt' and a[1] == b[1]:
+        if a[2] != b[2]:
+            return True
+        return len(a[4]) == len(b[4]) and any(definitely_different(x, y) for x, y in zip(a[4], b[4]))
+    if a[0] == 'tuple' and b[0] == 'tuple' and len(a[1]) == len(b[1]):
+        return any(definitely_different(x, y) for x, y in zip(a[1], b[1]))
+    return False
+
+
 def fully_known(v):
     if v[0] == 'c':
         return True
@@ -736,6 +750,9 @@ class Interp:
             if fully_known(a) and fully_known(b):
                 return C((a == b) if name == 'eq' else (a != b)), args
             if a[0] == 'adt' and b[0] == 'adt' and a[1] == b[1] and a[2] != b[2]:
+                return C(name == 'ne'), args
+            if definitely_different(a, b):
+                # same variant, but some field is a different variant / a different constant (`Some(Literal(w)) != Some(Ampersand)`)
                 return C(name == 'ne'), args
             if a == b and a[0] in ('sym',):
                 return C(name == 'eq'), args
